@@ -207,6 +207,12 @@ func (c *Ctx) tokenDispatch(h *ssa.Function) map[int64]OpArm {
 					continue
 				}
 				cal := calleeOf(call)
+				if cal == nil && !call.Call.IsInvoke() {
+					// table-driven dispatch: the callee is a function value whose identity folded for this token
+					if lv := r.Val(call.Call.Value); lv.K == lRef {
+						cal = fnValue(lv.V)
+					}
+				}
 				if cal == nil || !c.inModule(cal) || (disp != nil && cal == disp.Fn) {
 					continue
 				}
